@@ -12,7 +12,9 @@ CONSTANTS Mode,        \* "pdu" | "bytes"
           Miuxs,       \* {0, 1, 2047}
           Rws,         \* 0..15
           Sym,         \* payload alphabet, e.g. {0, 65, 255}
-          Alpha        \* byte-string alphabet for mode "bytes"
+          Alpha,       \* byte-string alphabet for mode "bytes"
+          MemSapCodes, \* dsap * 64 + ssap of the PDUs used as members of aggregates
+          FrmrSapCodes \* dsap * 64 + ssap of the FRMR PDUs (3^6 sequence-number combinations each)
 
 VARIABLE x
 
@@ -32,7 +34,6 @@ PConn(SP) == {[t |-> "CONNECT", dsap |-> a[1], ssap |-> a[2], miu |-> 128 + m, r
 PDisc(SP) == {[t |-> "DISC", dsap |-> a[1], ssap |-> a[2]] : a \in SP}
 PCc(SP)   == {[t |-> "CC", dsap |-> a[1], ssap |-> a[2], miu |-> 128 + m, rw |-> r] : a \in SP, m \in Miuxs, r \in Rws}
 PDm(SP)   == {[t |-> "DM", dsap |-> a[1], ssap |-> a[2], reason |-> r] : a \in SP, r \in {0, 1, 33, 255}}
-FrmrSaps  == {<<0, 0>>, <<1, 63>>, <<32, 4>>, <<63, 63>>}
 PFrmr(SP, F, Q) ==
   {[t |-> "FRMR", dsap |-> a[1], ssap |-> a[2], flags |-> f, ptype |-> q, ns |-> n[1], nr |-> n[2],
     vs |-> n[3], vr |-> n[4], vsa |-> n[5], vra |-> n[6]] :
@@ -48,17 +49,19 @@ PUnk(SP)  == {[t |-> "UNK", ptype |-> q, dsap |-> a[1], ssap |-> a[2], data |-> 
 
 (* members of aggregates: a cross-section of the above (kept small: \cup is quadratic in TLC),
    and AGFs of those as members of AGFs (nesting depth 2) *)
-MSaps == {0, 1, 63} \X {0, 1, 32}
+Pairs(C) == {<<c \div 64, c % 64>> : c \in C}
+MSaps == Pairs(MemSapCodes)
+FrmrSaps == Pairs(FrmrSapCodes)
 MData == {<<>>, <<255, 0>>}
 Mem0 ==
   PSymm
   \cup {p \in PPax : p.ver \in {-1, 19} /\ p.miux \in {-1, 2047} /\ p.wks = -1 /\ p.lto \in {-1, 255} /\ p.opt = -1}
   \cup {p \in PUi(MSaps) : p.data \in MData}
-  \cup {p \in PConn({1} \X {0, 1, 32}) : p.rw \in {0, 1, 15} /\ p.miu \in {128, 2175}}
+  \cup {p \in PConn(MSaps) : p.rw \in {0, 1, 15} /\ p.miu \in {128, 2175}}
   \cup PDisc(MSaps)
   \cup {p \in PCc(MSaps) : p.rw \in {0, 1, 15} /\ p.miu \in {128, 2175}}
   \cup {p \in PDm(MSaps) : p.reason = 33}
-  \cup {p \in PFrmr({<<0, 0>>, <<63, 63>>}, {5}, {12}) : p.ns = 15 /\ p.nr = 1 /\ p.vs = p.vr /\ p.vsa = 0 /\ p.vra = 15}
+  \cup {p \in PFrmr(MSaps, {5}, {12}) : p.ns = 15 /\ p.nr = 1 /\ p.vs = p.vr /\ p.vsa = 0 /\ p.vra = 15}
   \cup {p \in PSnl : Len(p.sdreq) <= 1 /\ Len(p.sdres) <= 1 /\ (p.sdreq # <<>> => p.sdreq[1].tid = 255)
                      /\ (p.sdres # <<>> => p.sdres[1].tid = 0 /\ p.sdres[1].sap = 16)}
   \cup PDps
@@ -138,7 +141,8 @@ W_Nested    == ~(IsPdu /\ HasNested(x) /\ Len(x.agg) = 2)
 W_Snl2      == ~(IsPdu /\ x.t = "SNL" /\ Len(x.sdreq) = 2 /\ Len(x.sdres) = 2)
 W_TlvSlice  == ~(IsBytes /\ IsErr(D) /\ ~IsErr(DecodeLoose(x.b)) /\ D.why = <<"agf-member", "CONNECT", "tlv-past-slice">>)
 W_MemSlice  == ~(IsBytes /\ IsErr(D) /\ ~IsErr(DecodeLoose(x.b)) /\ D.why = <<"agf-member", "agf-member-past-slice">>)
-W_LenSlice  == ~(IsBytes /\ IsErr(D) /\ ~IsErr(DecodeLoose(x.b)) /\ D.why = <<"agf-member", "agf-length-field-past-slice">>)
+\* (a length field that straddles a slice end and still decodes loosely needs a >= 256 octet neighbour: reached
+\*  by the binding's "agf-lenfield-straddle" cases, not in these small domains)
 W_NoNest    == ~(IsBytes /\ ~IsErr(D) /\ IsErr(DecodeNoNest(x.b)))
 W_TlvLen    == ~(IsBytes /\ IsErr(D) /\ D.why = <<"CONNECT", "tlv-length", "RW">>)
 W_Skip      == ~(IsBytes /\ ~IsErr(D) /\ D.t = "CONNECT" /\ Len(x.b) = 6 /\ x.b[3] = 0 /\ D.rw = 1 /\ D.sn = Absent)
